@@ -121,14 +121,20 @@ def build_pool(rng, u, reg, n, fams):
             mex = im.parse_shipped_string_file(MEX_DRAWER_TYPE.get_trace_string_file_path())
             nim = im.parse_shipped_string_file(NIMITZ_DRAWER_TYPE.get_trace_string_file_path())
             both = mex[:40] + nim[:40] + rng.sample(mex, 20) + rng.sample(nim, 20)
+            tmex = im.parse_shipped_pte_table(MEX_DRAWER_TYPE.get_header_file_path())[0]
+            tnim = im.parse_shipped_pte_table(NIMITZ_DRAWER_TYPE.get_header_file_path())[0]
+            # PTEs drawn from the few entries that the two shipped tables do NOT share (a dozen patterns are described
+            # differently or exist in one table only - the rest of the 600 are identical), then from the whole table
+            dmex, dnim = {e[0]: e for e in reversed(tmex)}, {e[0]: e for e in reversed(tnim)}
+            odd = [e for e in tmex if dnim.get(e[0]) != e] + [e for e in tnim if dmex.get(e[0]) != e]
             payloads = [(84, iogen.gen_trace(rng, both, name=b"FANS", nentries=6, hostile=False)),
-                        (73, iogen.gen_ilog(rng, im.parse_shipped_pte_table(MEX_DRAWER_TYPE.get_header_file_path())[0], 8)),
+                        (73, (lambda a: a[:len(a) // 8 * 8])(iogen.gen_ilog(rng, odd or tmex, 12)) + iogen.gen_ilog(rng, tnim, 12)),
                         (72, bytes(rng.randrange(256) for _ in range(48)))]
             for sub, payload in payloads:
                 for ver in (1, 2, 1):
                     pel, toks = mk(lambda: pm.Pel("M", pm.gen_ph(rng, u, "M"), pm.gen_uh(rng, "M"),
                                                   [pm.sec_ud(rng, u, "M", 0x2C00, sub, ver, payload, expect_mode="plugin"), pm.gen_mt(rng, u, "M")]))
-                    add(pel, "m2c00:%d/v%d" % (sub, ver), group="m2c00", toks=toks)
+                    add(pel, "m2c00:%d/v%d" % (sub, ver), group="m2c00-%d" % sub, toks=toks)
         elif fam == 1:
             comp = rng.choice([0xFA00, 0x2000, 0xE500, 0x1000, 0x0100, 0x4142])
             for c in rng.sample("OBHMX", 4):
